@@ -283,7 +283,13 @@ def gen_marked_edit(rng, doc, texts, avoid_pi=()):
             if count_occ(fuzzy_norm(texts["clean"]), fuzzy_norm(target)) != 1:
                 continue
             w = word()
-            if rng.random() < 0.7:
+            c = rng.random()
+            if c < 0.4:
+                # a change inside the formatted run, quoted with its markers: '**Net 30**' -> '**Net 60**'
+                k = txt.rfind(" ") + 1
+                inner = txt[:k] + w
+                kind, new, new_real = "replace_inside_markers", lead + pre + inner + suf, lead + inner
+            elif c < 0.8:
                 kind, new, new_real = "extend", target + " " + w, real + " " + w
             else:
                 kind, new, new_real = "prefix", w + " " + target, w + " " + real
